@@ -683,6 +683,9 @@ pub fn run(tier: &str, seed: u64) -> i32 {
         if tier == "thorough" {
             for c in Curve::ALL {
                 items.extend([(c, 4096, 0, 2), (c, 1000, 4100, 1), (c, 8, 0, 1025), (c, 3, 2, 2100), (c, 2048, 2048, 0), (c, 8200, 0, 1)]);
+                if c == Curve::ALL[(seed % 3) as usize] {
+                    items.push((c, 16384, 0, 1));
+                }
             }
         } else {
             let c = Curve::ALL[((seed + 1) % 3) as usize];
